@@ -414,7 +414,8 @@ class ClientWebSocketResponse(Generic[_DecodeText]):
                     if self._close_wait:
                         set_result(self._close_wait, None)
             except (asyncio.CancelledError, asyncio.TimeoutError):
-                self._close_code = WSCloseCode.ABNORMAL_CLOSURE
+                # The caller gave up waiting; the connection is as it was (a
+                # later close() still does the closing handshake).
                 raise
             except EofStream:
                 # The stream ended without a Close frame.
